@@ -3,9 +3,11 @@ package main
 import (
 	"context"
 	"fmt"
+	"runtime"
 	"strconv"
 	"strings"
 	"sync"
+	"sync/atomic"
 	"time"
 
 	"github.com/attestantio/dirk/services/locker"
@@ -78,7 +80,16 @@ type park struct {
 // once), optionally parking the first store on given keys, and returns "tinv,tres,result" per op.
 func (w *world) runConcurrent(cops []cop, parks []*park, workers int, deadline time.Duration) string {
 	var pmu sync.Mutex
+	var signs int64
 	verifhook.SetHandler(func(name string, key []byte) error {
+		if name == "sign.enter" && w.yieldSign {
+			// steer: let other requests run between the computation of the signing root and its use
+			if atomic.AddInt64(&signs, 1)%4 == 0 {
+				time.Sleep(30 * time.Microsecond)
+			} else {
+				runtime.Gosched()
+			}
+		}
 		if name == "store.enter" || name == "batchstore.enter" {
 			var d time.Duration
 			pmu.Lock()
